@@ -54,7 +54,7 @@ _IDENT = re.compile(r"^[A-Za-z_][A-Za-z0-9_]*$")
 _KEYWORDS = {"if", "else", "match", "return", "while", "let", "in", "for", "loop", "break", "continue", "mut", "ref", "move", "as", "where", "unsafe"}
 
 
-def find_helper(repo, name):
+def find_helper(repo, name, self_ty=None):
     """the unique non-test definition `fn name(..) { body }` in the repository, if its body can be inlined (no `return`, no `?`, not recursive)"""
     from .lexer import lex
     from .extract import match_close
@@ -119,6 +119,9 @@ def find_helper(repo, name):
                             q -= 1
                         hbody = [self_ty if (x == "Self" and self_ty) else x for x in toks[j + 1:bc]]
                         found.append({"params": names, "has_self": has_self, "self_ty": self_ty, "body": hbody, "where": f"{os.path.relpath(os.path.join(dp, f), repo)}: fn {name}"})
+    if len(found) > 1 and self_ty:
+        # several types have a method of that name: the one of the type the call is made on
+        found = [h for h in found if h["has_self"] and h["self_ty"] == self_ty]
     if len(found) != 1:
         return None
     h = found[0]
@@ -443,7 +446,7 @@ def run_verus_file(uid, gen_text, obls, workdir, timeout=600, rlimit=100, type_m
             stub = (f"\n// R15e: `{ty}::{name}`: a copy is the same value\n"
                     f"impl {ty} {{ #[verifier::external_body] pub fn {name}(&self) -> (r: {ty}) ensures r == *self {{ unimplemented!() }} }}\n")
         elif m and (m.group(1), m.group(2)) not in added and re.search(r"\.\s*" + m.group(1) + r"\s*\(\s*\)", gen_text):
-            if m.group(1) not in helpers() and find_helper(os.environ.get("VERIF_REPO", "/repo"), m.group(1)) is not None:
+            if m.group(1) not in helpers() and find_helper(os.environ.get("VERIF_REPO", "/repo"), m.group(1), m.group(2)) is not None:
                 break       # R14b first: the method's body is inlined by the driver and the unit built again
             name, ty = m.group(1), m.group(2)
             added.append((name, ty))
